@@ -4,10 +4,13 @@
    all histories of the socket (datagrams with what json.loads makes of them, socket errors).
    The code still violates the property in one way (Refuted.v: a description full of JSON-escaped characters
    disables the responder although the identity fits); theorem 4 carries the exact guard.  The two other defects
-   found earlier were repaired in /repo (8298523, d6d9c1c): theorems 5 and 7 now hold without guard. *)
+   found earlier were repaired in /repo (8298523, d6d9c1c): theorems 5 and 7 now hold without guard.
+   Theorem 7 rests on the receive size of run() being below the nesting limit of json.loads (an obligation on the
+   generated constants); theorem 8 covers the start-up of the interfaces in Server.run. *)
 From Coq Require Import List Arith ZArith NArith Bool Lia String.
 Import ListNotations.
-Require Import FV.Gen.C19 FV.C19.Model FV.C19.LemmasUtf8 FV.C19.LemmasJson FV.C19.Lemmas FV.C19.Refuted.
+Require Import FV.Gen.C19 FV.C19.Model FV.C19.LemmasUtf8 FV.C19.LemmasJson FV.C19.Lemmas FV.C19.LemmasServer
+  FV.C19.Refuted.
 Open Scope N_scope.
 
 (* obligations on the facts regenerated from /repo (Gen/C19.v): the source still has the modelled shape *)
@@ -23,8 +26,19 @@ Theorem C19_source_facts :
   broadcast_guarded_by_enabled = true /\
   server_passes_opened_interfaces = true /\ interfaces_registered_after_open = true /\
   tcp_port_parse_agrees = true /\
-  budget_port = 65535 /\ (0 < MAX_MESSAGE_LEN)%Z /\ (0 < recv_bufsize)%nat /\ 0 < UDP_PORT.
-Proof. repeat split; try reflexivity; apply Nat.ltb_lt; reflexivity. Qed.
+  server_startup_shape = true /\ interface_thread_shape = true /\ startup_broadcast_default = true /\
+  budget_port = 65535 /\ (0 < MAX_MESSAGE_LEN)%Z /\ 0 < recv_bufsize /\ 0 < UDP_PORT /\
+  (* the datagram is cut to fewer bytes than json.loads needs nesting levels to raise a RecursionError *)
+  recv_bufsize < json_depth_limit.
+Proof. repeat split; reflexivity. Qed.
+
+(* the same obligation in the form the theorems about the receive loop use it *)
+Theorem C19_recv_below_limit : (recv_size < N.to_nat json_depth_limit)%nat.
+Proof.
+  unfold recv_size. apply Nat.compare_lt_iff. rewrite <- N2Nat.inj_compare.
+  destruct C19_source_facts as (_ & _ & _ & _ & _ & _ & _ & _ & _ & _ & _ & _ & _ & _ & _ & _ & _ & _ & _ & _ & _ & H).
+  exact H.
+Qed.
 
 (* 1. at most MAX_MESSAGE_LEN (508) bytes for every port a TCP server can listen on, whenever the responder is
       enabled *)
@@ -110,22 +124,76 @@ Proof. exact answers_iff. Qed.
 
 Theorem C19_is_request_meaning : forall data p,
   is_request data p = true <->
-  (exists text, utf8_decode (firstn recv_bufsize data) = Some text) /\
+  (exists text, utf8_decode (received data) = Some text) /\
   exists ms, p = PObj ms /\ lookup K_SECoP ms = Some (Some K_discover).
 Proof. exact is_request_spec. Qed.
 
-(* 7. keeps answering, full strength: every datagram -- any bytes, any JSON value -- leaves the responder
-      listening *)
-Theorem C19_survives : forall l s data p a,
+(* 7. keeps answering.  The loop catches ValueError only; what else json.loads can raise is a RecursionError, and
+      only on text with at least json_depth_limit nested brackets (loads_law: the law assumed of CPython, measured
+      and checked on every generated datagram).  The thread is ended by exactly such datagrams ... *)
+Theorem C19_killed_iff : forall l s data p a,
+  st s = Listening ->
+  (st (lstep l s (IRecv data p a)) = Killed <->
+   (exists text, utf8_decode (received data) = Some text) /\ p = PRaise).
+Proof.
+  intros l s data p a H. rewrite (killed_iff l s data p a H). unfold is_killer.
+  destruct (utf8_decode (received data)) as [t|].
+  - destruct p; split; try discriminate; try (intros (_ & E); discriminate); eauto.
+  - split; [discriminate | intros ((t & E) & _); discriminate].
+Qed.
+
+(*    ... which cannot arrive when the receive size is below the limit: for every receive size and every limit
+      above it, every datagram -- any bytes, any JSON value -- leaves the responder listening ... *)
+Theorem C19_survives_if_recv_below_limit : forall limit l s data p a,
+  (recv_size < limit)%nat -> loads_law limit (received data) p ->
   st s = Listening -> st (lstep l s (IRecv data p a)) = Listening.
 Proof. exact survives. Qed.
+
+(*    ... in particular for the code as it is: recvfrom(1024) against the measured limit (the obligation
+      recv_bufsize < json_depth_limit of C19_source_facts) *)
+Theorem C19_survives : forall l s data p a,
+  loads_law (N.to_nat json_depth_limit) (received data) p ->
+  st s = Listening -> st (lstep l s (IRecv data p a)) = Listening.
+Proof. intros l s data p a. apply survives. exact C19_recv_below_limit. Qed.
 
 (*    and over whole histories: after any sequence of datagrams the responder listens and has answered exactly the
       requests among them, in order; only a socket error (shutdown) ends the loop *)
 Theorem C19_keeps_answering : forall l ins,
-  l_enabled l = true -> Forall is_recv ins ->
+  l_enabled l = true -> Forall (recv_ok (N.to_nat json_depth_limit)) ins ->
   st (run l ins) = Listening /\ outs (run l ins) = outs (start l) ++ flat_map (reply l) ins.
-Proof. exact keeps_answering. Qed.
+Proof. intros l ins. apply keeps_answering. exact C19_recv_below_limit. Qed.
+
+(* 8. a TCP port it really listens on: Server.run starts one thread per configured interface; evs is what these
+      threads did before the server went on -- (i, true): thread i constructed (bound) its interface and registered
+      it, (i, false): its constructor raised, no event: still inside the constructor when the start-up time-out
+      expired -- in any order, any number of them.  Whatever happened, every datagram the responder ever sends
+      announces the tcp port of an interface that was opened ... *)
+Theorem C19_ports_are_open : forall conf evs ifs eid ver desc ins o,
+  handed conf evs = Some ifs ->
+  In o (outs (run (init (node_cfg eid ver desc ifs)) ins)) ->
+  exists i scheme p,
+    In (i, true) evs /\ nth_error (map normalise conf) i = Some (scheme, p) /\
+    starts_with K_tcp (uri (scheme, p)) = true /\
+    snd o = message (init (node_cfg eid ver desc ifs)) p.
+Proof. exact ports_are_open. Qed.
+
+(*    ... every opened tcp interface is announced, each interface once ... *)
+Theorem C19_open_ports_announced : forall conf evs ifs eid ver desc i scheme p,
+  handed conf evs = Some ifs ->
+  In (i, true) evs -> nth_error (map normalise conf) i = Some (scheme, p) ->
+  starts_with K_tcp (uri (scheme, p)) = true ->
+  In p (l_ports (init (node_cfg eid ver desc ifs))).
+Proof. exact open_ports_announced. Qed.
+
+Theorem C19_handed_interfaces : forall conf evs ifs,
+  handed conf evs = Some ifs ->
+  ifs <> [] /\ NoDup ifs /\ forall u, In u ifs <-> opened_by (map normalise conf) evs u.
+Proof. exact handed_spec. Qed.
+
+(*    ... and no responder is created exactly when no interface was opened *)
+Theorem C19_no_responder_iff_nothing_opened : forall conf evs,
+  handed conf evs = None <-> forall u, ~ opened_by (map normalise conf) evs u.
+Proof. exact handed_none. Qed.
 
 (* non-vacuity: a description of 300 euro signs is cut to 140 characters (whole characters: 3 bytes each), the
    messages have 508 bytes, a request from sender 2 is answered once per tcp port, other datagrams (an empty object,
@@ -141,7 +209,27 @@ Example C19_demo :
   = (true, 140%nat, [10767; 1], Listening, [(DAddr 2, 508%Z); (DAddr 2, 504%Z)]).
 Proof. vm_compute. reflexivity. Qed.
 
+(* non-vacuity of the law hypothesis of theorem 7: the model can express the kill -- json.loads raising on valid
+   UTF-8 ends the loop -- so C19_survives really rests on the receive size obligation *)
+Example C19_demo_killer :
+  st (run (init demo_cfg) [IRecv (repeat 91 2000) PRaise 0; IRecv request_bytes request_parse 2]) = Killed
+  /\ loads_law_b (N.to_nat json_depth_limit) (received (repeat 91 2000)) PRaise = false.
+Proof. vm_compute. split; reflexivity. Qed.
+
+(* non-vacuity of theorem 8: four configured interfaces (the second one a bare number); the ws interface and the
+   first tcp interface come up (in this order), the last one fails, the second one hangs until the time-out: the
+   responder gets the two opened ones and announces port 10767 only, although the local list of the server still
+   holds the hanging tcp://10768 *)
+Example C19_demo_startup :
+  let conf := [(Some (s2l "tcp"), 10767); (None, 10768); (Some (s2l "ws"), 8010); (Some (s2l "tcp"), 10769)] in
+  let evs := [(2, true); (0, true); (3, false)]%nat in
+  handed conf evs = Some [(s2l "ws", 8010); (s2l "tcp", 10767)] /\
+  s_list (startup (map normalise conf) evs) = [(s2l "tcp", 10767); (s2l "tcp", 10768); (s2l "ws", 8010)] /\
+  l_ports (init (node_cfg (s2l "e") (s2l "v1") None [(s2l "ws", 8010); (s2l "tcp", 10767)])) = [10767].
+Proof. vm_compute. repeat split; reflexivity. Qed.
+
 Print Assumptions C19_source_facts.
+Print Assumptions C19_recv_below_limit.
 Print Assumptions C19_bounded.
 Print Assumptions C19_wellformed.
 Print Assumptions C19_char_boundary.
@@ -153,6 +241,12 @@ Print Assumptions C19_disabled_silent.
 Print Assumptions C19_ports_opened.
 Print Assumptions C19_answers_iff.
 Print Assumptions C19_is_request_meaning.
+Print Assumptions C19_killed_iff.
+Print Assumptions C19_survives_if_recv_below_limit.
 Print Assumptions C19_survives.
 Print Assumptions C19_keeps_answering.
+Print Assumptions C19_ports_are_open.
+Print Assumptions C19_open_ports_announced.
+Print Assumptions C19_handed_interfaces.
+Print Assumptions C19_no_responder_iff_nothing_opened.
 Print Assumptions C19_refuted_disabled_though_identity_fits.
